@@ -132,6 +132,40 @@ def env():
     return _env
 
 
+POOL = ['H2', 'Hq', 'Hn4', 'D2', 'Dz2', 'Dz3_101', 'Q1', 'Rq3', 'Mq_0_1', 'I2', 'S22', 'BLh', 'BLz', 'S22I', 'D2I', 'Q1T', 'W', 'Tz']
+
+
+def random_container(rng, depth):
+    n = rng.randint(1, 3)
+    kids = []
+    for _ in range(n):
+        if depth < 2 and rng.random() < 0.35:
+            kids.append(random_container(rng, depth + 1))
+        else:
+            kids.append(rng.choice(POOL))
+    kind = rng.choice(['list', 'tuple', 'dict'])
+    if kind == 'list':
+        return kids
+    if kind == 'tuple':
+        return {'tuple': kids}
+    return {'dict': {f'k{i}': v for i, v in enumerate(kids)}}
+
+
+_built: dict = {}
+
+
+def operand(case):
+    if 'desc' not in case:
+        return env()[case['name']]
+    key = json.dumps(case['desc'], sort_keys=True)
+    if key not in _built:
+        try:
+            _built[key] = A.build_operand(case['desc'], env())
+        except Exception as e:
+            _built[key] = A.Unbuildable(case['name'], e)
+    return _built[key]
+
+
 def category(name: str) -> str:
     d = LET[name]
     k = d['k']
@@ -270,7 +304,7 @@ class Check(PropertyCheck):
         out = []
         mt3 = [n for n in names if n.startswith('Mt3_')]
         rng.shuffle(mt3)
-        keep_mt3 = set(mt3[: 12 if quick else 150])
+        keep_mt3 = set(mt3[: 12 if quick else 600])
         mr3 = [n for n in names if n.startswith('Mr3_')]
         rng.shuffle(mr3)
         keep_mr3 = set(mr3[: 14 if quick else 36])
@@ -280,6 +314,11 @@ class Check(PropertyCheck):
             if n.startswith('Mr3_') and n not in keep_mr3:
                 continue
             out.append({'kind': category(n), 'name': n})
+        # seeded random block-diagonal operators: nested list/tuple/dict containers of square blocks
+        # (closed forms, singular diagonals, lazy inverses and their wrappers, block-diagonal blocks)
+        for k in range(10 if quick else 150):
+            out.append({'kind': 'blockdiag-random', 'name': f'RB{k}',
+                        'desc': {'k': 'bdiagop', 'blocks': random_container(rng, 0)}})
         self.stats['operands'] = len(out)
         return out
 
@@ -302,8 +341,7 @@ class Check(PropertyCheck):
 
     # -- implementation ----------------------------------------------------------------------------
     def run_impl(self, case):
-        e = env()
-        op = e[case['name']]
+        op = operand(case)
         if isinstance(op, A.Unbuildable):
             return {'build_error': op.error}
         enc = A.Encoder()
@@ -412,7 +450,7 @@ class Check(PropertyCheck):
             return f'the matrix of {cls}.I contains NaN or Inf'
         if obs.get('pinv_values_finite') is False:
             return 'DiagonalInverseOperator.diagonal contains NaN or Inf'
-        diag_singular = category(case['name']) == 'diagonal' and not obs['invertible']
+        diag_singular = case['kind'] == 'diagonal' and not obs['invertible']
         if o.get('mat') is None:
             if obs['invertible'] or diag_singular:
                 return f'{cls}.I cannot be applied: {o.get("mat_error")}'
@@ -472,7 +510,7 @@ def obs_struct(obs, k):
 
 def pinv_expected(case) -> bool:
     """Block-diagonal operands all of whose singular blocks are diagonals: the result is the pseudo-inverse."""
-    return case['name'] in ('BLz', 'BNn', 'BBn')
+    return case['name'] in ('BLz', 'BNn', 'BBn') or case['kind'] == 'blockdiag-random'
 
 
 def tofloat(m) -> np.ndarray:
